@@ -146,6 +146,8 @@ structure Merged (orig r : List Scope) : Prop where
   inside : ∀ o ∈ orig, ∃ s ∈ r, s.start ≤ o.start ∧ o.stop ≤ s.stop
   /-- every result scope starts where some input scope starts -/
   starts : ∀ s ∈ r, ∃ o ∈ orig, o.start = s.start ∧ o.stop ≤ s.stop
+  /-- every result scope ends where some input scope ends -/
+  stops : ∀ s ∈ r, ∃ o ∈ orig, o.stop = s.stop
 
 theorem zip_spec (fuel : Nat) : ∀ (pre : List Scope) (cur : Scope) (rest : List Scope),
     pre.length + 2 * rest.length + 1 ≤ fuel → ZInv pre cur rest →
@@ -157,7 +159,8 @@ theorem zip_spec (fuel : Nat) : ∀ (pre : List Scope) (cur : Scope) (rest : Lis
     cases rest with
     | nil =>
       exact ⟨pre.reverse ++ [cur], rfl, inv.disj, inv.ne, fun x => Iff.rfl,
-        fun o ho => ⟨o, ho, Int.le_refl _, Int.le_refl _⟩, fun s hs => ⟨s, hs, rfl, Int.le_refl _⟩⟩
+        fun o ho => ⟨o, ho, Int.le_refl _, Int.le_refl _⟩, fun s hs => ⟨s, hs, rfl, Int.le_refl _⟩,
+        fun s hs => ⟨s, hs, rfl⟩⟩
     | cons b rest =>
       have hne := inv.ne
       have hsorted := inv.sorted
@@ -219,6 +222,15 @@ theorem zip_spec (fuel : Nat) : ∀ (pre : List Scope) (cur : Scope) (rest : Lis
             · exact ⟨cur, by simp, by omega, by omega⟩
             · exact ⟨b, by simp, by omega, by omega⟩
           · exact ⟨o, by simp [ho], h1, h2⟩
+        have hstp : ∀ r : List Scope, (∀ s ∈ r, ∃ o ∈ pre.reverse ++ hull cur b :: rest, o.stop = s.stop) →
+            ∀ s ∈ r, ∃ o ∈ pre.reverse ++ cur :: b :: rest, o.stop = s.stop := by
+          intro r h s hs
+          obtain ⟨o, ho, h1⟩ := h s hs
+          simp only [List.mem_append, List.mem_cons, List.mem_reverse] at ho
+          rcases ho with ho | ho | ho
+          · exact ⟨o, by simp [ho], h1⟩
+          · subst ho; exact ⟨b, by simp, by rw [← h1, hhs]⟩
+          · exact ⟨o, by simp [ho], h1⟩
         have hf' : pre.length + 2 * rest.length + 2 ≤ fuel := by
           simp only [List.length_cons] at hf; omega
         cases pre with
@@ -226,7 +238,8 @@ theorem zip_spec (fuel : Nat) : ∀ (pre : List Scope) (cur : Scope) (rest : Lis
           have inv' : ZInv [] (hull cur b) rest := ⟨hne', hsorted', by simp [Disjoint]⟩
           obtain ⟨r, hr, hm⟩ := ih [] (hull cur b) rest (by simp only [List.length_nil] at hf' ⊢; omega) inv'
           exact ⟨r, hr, hm.disj, hm.ne, fun x => (hm.cover x).trans (hcov x),
-            by simpa using hins r (by simpa using hm.inside), by simpa using hsts r (by simpa using hm.starts)⟩
+            by simpa using hins r (by simpa using hm.inside), by simpa using hsts r (by simpa using hm.starts),
+            by simpa using hstp r (by simpa using hm.stops)⟩
         | cons p ps =>
           have hd := inv.disj
           have inv' : ZInv ps p (hull cur b :: rest) := by
@@ -239,13 +252,15 @@ theorem zip_spec (fuel : Nat) : ∀ (pre : List Scope) (cur : Scope) (rest : Lis
               simp [hc]
           obtain ⟨r, hr, hm⟩ := ih ps p (hull cur b :: rest)
             (by simp only [List.length_cons] at hf' ⊢; omega) inv'
-          refine ⟨r, hr, hm.disj, hm.ne, fun x => ?_, ?_, ?_⟩
+          refine ⟨r, hr, hm.disj, hm.ne, fun x => ?_, ?_, ?_, ?_⟩
           · have := hcov x
             simp only [List.reverse_cons, List.append_assoc, List.singleton_append] at this ⊢
             exact (hm.cover x).trans this
           · have := hins r (by simpa using hm.inside)
             simpa using this
           · have := hsts r (by simpa using hm.starts)
+            simpa using this
+          · have := hstp r (by simpa using hm.stops)
             simpa using this
       · simp only [ho, if_false]
         have hle : cur.stop ≤ b.start := by omega
@@ -269,11 +284,12 @@ theorem zip_spec (fuel : Nat) : ∀ (pre : List Scope) (cur : Scope) (rest : Lis
                 omega
         obtain ⟨r, hr, hm⟩ := ih (cur :: pre) b rest
           (by simp only [List.length_cons] at hf ⊢; omega) inv'
-        refine ⟨r, hr, hm.disj, hm.ne, fun x => ?_, ?_, ?_⟩
+        refine ⟨r, hr, hm.disj, hm.ne, fun x => ?_, ?_, ?_, ?_⟩
         · have := hm.cover x
           simpa using this
         · simpa using hm.inside
         · simpa using hm.starts
+        · simpa using hm.stops
 
 /-- `mergeScopes` (repaired) on a list sorted by `stop` with non-empty scopes: no panic,
 the result is disjoint and increasing and has the same union. -/
@@ -283,7 +299,7 @@ theorem mergeScopes_spec (l : List Scope) (hs : SortedByStop l) (hne : AllNonEmp
   | nil =>
     refine ⟨[], ?_, ?_⟩
     · simp [mergeScopes, mergeScopesWith, mergeLoop]
-    · exact ⟨by simp [Disjoint], by simp [AllNonEmpty], fun x => Iff.rfl, by simp, by simp⟩
+    · exact ⟨by simp [Disjoint], by simp [AllNonEmpty], fun x => Iff.rfl, by simp, by simp, by simp⟩
   | cons a rest =>
     have h := mergeLoop_eq_zip (2 * (a :: rest).length + 1) [] a rest
     simp only [List.length_nil, List.reverse_nil, List.nil_append] at h
